@@ -63,6 +63,20 @@ func cbHistory(prop string) func(r *core.Run, idx int, rng *rand.Rand) {
 		}
 		e := a.build()
 		b.install(e.W)
+		if prop == "C17" && idx%2 == 0 {
+			// the provider's first page is an SSO error reply (a request refused after its consumer was chosen)
+			spd := stdSP(0)
+			spd.AuthnRequestsSigned = ""
+			spd.ACS = []spsim.ACS{{Binding: spsim.BindPost, Location: "https://sp0.example/acs/first-page", Index: "0"}}
+			mustRegister(e.W, spd, "app-first-page")
+			bad := validAuthn(rng, spd)
+			bad.Destination = "https://elsewhere.example/SSO"
+			s0 := ssoSend{Binding: []string{"redirect", "post"}[rng.Intn(2)], XML: bad.XML(rng), HasRelay: true, Relay: hostileRelay(rng)}
+			c0, _ := s0.do(e)
+			if c0.Panic == "" && c0.D.Kind == "form" {
+				r.Count("histories_starting_with_an_sso_error_page", 1)
+			}
+		}
 		reRegister := idx%4 == 1
 		var pub *metaView
 		if prop == "C04" {
@@ -163,6 +177,11 @@ func cbHistory(prop string) func(r *core.Run, idx int, rng *rand.Rand) {
 			case "C17":
 				if d.Kind != "form" {
 					r.Count("not_a_form_"+d.Kind, 1)
+					// the first callback of a completed session with an https consumer and nothing failing: the login has
+					// to be delivered, and the page is how (a provider may refuse repetitions)
+					if si == 0 && d.Status >= 500 && strings.HasPrefix(sc.S.ACS, "https://") {
+						viol("no_page_for_a_completed_login", fmt.Sprintf("the first callback of a completed session was answered with status %d instead of the auto-submit page: %s", d.Status, clipS(string(d.Body), 160)))
+					}
 					continue
 				}
 				c17Judge(r, wl, idx, class, c17PostSkel, d, sc.S.ACS, sc.S.RelayState, desc, call)
